@@ -449,8 +449,22 @@ def check_c13(pid, tier, build, props):
         problems.append("correspondence _find_dominators_internal = Model/DomWl.v broken: %d calls differ, first: %r%s"
                         % (dt["mismatch_count"], dt["mismatches"][:1],
                            (" harness: %r" % dt["harness_errors"][:1]) if dt["harness_errors"] else ""))
+    # _imm_doms, line by line (Model/ImmDom.v): every call the pipeline makes and direct calls; the chain hypotheses
+    # of the universal theorem must hold on the pipeline's calls
+    from . import immcalls
+    it = immcalls.tie(tier, common.seed())
+    imm_tie_ok = it["mismatch_count"] == 0 and not it["harness_errors"] and it["agree"] > 0
+    if not imm_tie_ok:
+        problems.append("correspondence _imm_doms = Model/ImmDom.v broken: %d calls differ, first: %r%s"
+                        % (it["mismatch_count"], it["mismatches"][:1],
+                           (" harness: %r" % it["harness_errors"][:1]) if it["harness_errors"] else ""))
+    if it["calls_not_meeting_them"]["pipeline"]:
+        problems.append("the chain hypotheses of the theorem about _imm_doms (ImmDomRun.imm_pre) do not hold on %d calls "
+                        "the pipeline makes, first: %r" % (it["calls_not_meeting_them"]["pipeline"],
+                                                           it["pipeline_calls_not_meeting_them_examples"][:1]))
     nth = len(props["theorems"])
     coverage = {
+        "imm_doms_model": dict(it, holds=imm_tie_ok),
         "obligations": nth + 2,
         "discharged": (nth if props["ok"] else 0) + (1 if not violations and not errors and nq else 0)
                       + (1 if dom_tie_ok else 0),
